@@ -51,6 +51,13 @@ def uncens (maxT : F) : List (Rec F) → List Bool
   | [r] => [eqF r.time maxT || !(!r.event)]
   | r :: r' :: rest => (eqF r.time maxT || !(r.id != r'.id && !r.event)) :: uncens maxT (r' :: rest)
 
+/-- a column together with its `shift(-1)`: `f` sees every row and the row after it (`none` after the last row, where
+    pandas puts NaN) -/
+def mapNext {α β : Type} (f : α → Option α → β) : List α → List β
+  | [] => []
+  | [x] => [f x none]
+  | x :: y :: rest => f x (some y) :: mapNext f (y :: rest)
+
 /-- first record of every subject, on an id-contiguous list (`drop_duplicates(subset=idvar, keep='first')`) -/
 def firsts : List (Rec F) → List (Rec F)
   | [] => []
